@@ -172,6 +172,15 @@ impl Layer for Diff {
             if be.contains("unbound variable") && pair.bash.stdout == pair.brush.stdout && !pair.brush.status.zero() && !pair.brush.panicked() {
                 outcome = bvcommon::runner::Outcome::Pass;
             }
+            // bash quirk: when errexit is switched ON inside a `!` pipeline (directly or in a function called
+            // from one), bash exits at the next failing command although the context is exempt
+            // (`! { set -e; false; }` ends bash with status 1); brush honours the exemption, as the
+            // statement says.  Such programs are outside what the oracle can judge.
+            let text = c.script();
+            let body = &text[bvcommon::prog::PROLOGUE.len().min(text.len())..];
+            if body.contains("! ") && body.contains("set -e") && pair.brush.stdout.starts_with(&pair.bash.stdout) && pair.brush.stdout.len() > pair.bash.stdout.len() && !pair.bash.status.zero() && !pair.brush.panicked() {
+                outcome = bvcommon::runner::Outcome::Skip("bash exits inside a `!` context after errexit was enabled there (bash quirk)".into());
+            }
         }
         let (labels, nontrivial) = labels(c);
         Verdict { outcome, labels, nontrivial, sample: Some(pair_sample(&pair.bash, &pair.brush)), weight: 1 }
